@@ -674,9 +674,8 @@ fn analyze_inner(view: &View, cfg: &Cfg, script: &Script, quirks: Quirks, a: &mu
         return rej(Stage::Signature, Kind::SignatureDoesNotMatch, Discr::Has("does not match the signature you provided"));
     }
     // A correct signature; acceptance is demanded only where the canonical form is fixed by the properties.
-    if !listed_sorted {
-        return dc(Stage::Signature, "SignedHeaders not listed in sorted order");
-    }
+    // (the order in which SignedHeaders enumerates the names does not matter: the canonical request lists them sorted)
+    let _ = listed_sorted;
     let mut uniq = signed.clone();
     uniq.dedup();
     if uniq.len() != signed.len() || signed.iter().any(|s| s.is_empty()) {
